@@ -16,6 +16,17 @@ CLAIMED = {
    note="Trusted: Coq kernel, extraction+driver, harness; std::path::Path::components is modelled (Spec/PathSpec.v) and validated against std on every case; Unix semantics.",
    technique="Coq proof (induction over component lists) + exhaustive-by-length differential correspondence",
    design="8 (C06)"),
+ "C19": dict(
+   text="Machine-checked Coq theorems: the crate's CP437 table (regenerated from src/cp437.rs each run) equals the "
+        "Unicode-consortium table emitted from CPython's codec for all 256 bytes; the ASCII fast path equals the "
+        "per-byte table path for every byte string; flag set means UTF-8 lossy decoding (a total function), which is "
+        "the identity on every encoded scalar-value string (complete 1.1M-point sweep lifted by induction), hence any "
+        "Rust string given to the writer is flagged and read back unchanged.  Correspondence: all 256 bytes in both "
+        "modes, adversarial invalid UTF-8, random strings up to 64 KiB as name/comment/archive comment through the "
+        "seekable and streaming readers, random writer names; CPython codecs as oracle.",
+   note="Trusted: Coq kernel, translator (table), extraction+driver, harness; String::from_utf8_lossy is modelled (Spec/Utf8.v) and compared with std on every case. Raw-name preservation is observed by the correspondence run (reader theorem pending).",
+   technique="Coq proof (finite sweeps lifted by induction) over source-translated table + differential correspondence",
+   design="8 (C19)"),
  "C18": dict(
    text="Machine-checked Coq theorems over definitions regenerated from src/types.rs on every run: "
         "unpack.pack = id on all 2^32 DOS words (separability + two complete 2^16 sweeps by vm_compute), "
